@@ -5,3 +5,4 @@ import EdxmlModel.Event.Event
 import EdxmlModel.Event.Hash
 import EdxmlModel.Event.Merge
 import EdxmlModel.Stream.Parser
+import EdxmlModel.Event.Collection
